@@ -66,6 +66,8 @@ type c03Case struct {
 	Thr    int    `json:"threshold,omitempty"`
 	// Pool: the session runs with a worker pool of its own (c03Proto.PoolStart; only for alterations that cannot reach a pool worker)
 	Pool bool `json:"pool,omitempty"`
+	// MsgLen: length in bytes of the message digest the signing session is run on (0 = the fixed 32-byte digest c03Msg)
+	MsgLen int `json:"msg_len,omitempty"`
 }
 
 func (cs c03Case) kind() string {
@@ -82,6 +84,9 @@ func (cs c03Case) key(prop string) string {
 	}
 	if cs.Hdr != "" {
 		k += "/" + cs.Hdr
+	}
+	if cs.MsgLen != 0 {
+		k += fmt.Sprintf("/msg-len=%d", cs.MsgLen)
 	}
 	return k
 }
